@@ -40,7 +40,7 @@ func genC09(rt *rapid.T) core.Scenario {
 			sc.Opts = append(sc.Opts, o)
 		}
 	}
-	sc.Store = StoreCfg{Kind: rapid.SampledFrom([]string{"mem", "mem", "mem", "sqlite"}).Draw(rt, "store")}
+	sc.Store = StoreCfg{Kind: rapid.SampledFrom([]string{"mem", "mem", "naive", "sqlite"}).Draw(rt, "store")}
 	np := rapid.IntRange(1, 4).Draw(rt, "nPublishers")
 	id := 0
 	for p := 0; p < np; p++ {
